@@ -217,7 +217,12 @@ def gen_scenario(rng):
                 scn["tables"]["df"] = scn["tables"]["df_alt"]
         if backend == "pandas" and values["df"][0] == "frame" and rng.random() < 0.3:
             values["df"] = ("frame", "df", rng.choice(
-                ["carry_equal", "carry_equal", "carry_other", "carry_stale"]))
+                ["carry_equal", "carry_equal", "carry_other", "carry_other",
+                 "carry_stale"]))
+            if values["df"][2] != "carry_other" and scn["df_annotation"] != "union":
+                # only a frame that validates can carry its schema
+                scn["tables"]["df"], _ = P.gen_table_for(
+                    rng, scn["specs"]["df"], options, "valid")
         scn["return_annotated"] = scn["out"] is not None
     scn["plan"], scn["values"] = plan, values
     return scn
@@ -788,6 +793,13 @@ def one_case(run, rng, scn=None, variants=None):
             # statement does not settle whether the shortcut may trust it
             run.count("undecided:accessor-carries-equal-schema-but-frame-changed")
             continue
+        if scn["deco"] == "check_types" and scn["values"]["df"][0] == "frame" \
+                and not ref.get("carry_failed") and not act.get("carry_failed"):
+            st = scn["values"]["df"][2]
+            if st == "carry_equal":
+                run.count("accessor:equal-schema-valid-frame:judged")
+            elif st == "carry_other":
+                run.count("accessor:different-schema:judged")
         diffs = compare(scn, var, act, ref, run)
         if not diffs:
             run.count("variant_agrees_with_reference")
@@ -831,12 +843,34 @@ def run(run, ctx):
         one_case(run, ctx.rng(PID, i))
 
 
-FLOORS = {}
+# about 1/4 of what the quick tier observes on the unchanged tree (seed 0);
+# the thorough tier scales with its number of scenarios
+FLOORS_QUICK = {
+    "outcome_compared": 3900, "received_objects_compared": 2300,
+    "caller_frames_after_compared": 3500,
+    "metamorphic_scenarios_compared": 500,
+    "variant_agrees_with_reference": 3000,
+    "scenario:check_input": 150, "scenario:check_output": 85,
+    "scenario:check_io": 90, "scenario:check_types": 165,
+    "variant:designation:int": 450, "variant:designation:none": 190,
+    "variant:designation:str": 550, "variant:binding:method": 1300,
+    "variant:binding:classmethod": 650, "variant:binding:staticmethod": 650,
+    "variant:async": 950, "variant:df_passed_by:keyword": 1500,
+    "option:head": 95, "option:tail": 48, "option:sample": 50,
+    "option:lazy": 95, "option:inplace": 75,
+    "ref:body_called": 2600, "ref:body_not_called": 1250,
+    "ref:raises:BodyError": 300, "ref:raises:SchemaErrors": 350,
+    "check_types:annotation:optional": 35, "check_types:annotation:union": 30,
+    "accessor:equal-schema-valid-frame:judged": 60,
+    "accessor:different-schema:judged": 40,
+    "backend:polars": 70,
+}
 
 
 def finalize(run, ctx):
-    for name, m in FLOORS.get(ctx.tier, {}).items():
-        run.floors[name] = m
+    scale = N[ctx.tier] / N["quick"]
+    for name, m in FLOORS_QUICK.items():
+        run.floors[name] = int(m * scale)
 
 
 def replay(path):
